@@ -238,8 +238,69 @@ fn sweep_reader(bytes: &[u8], pws: &[Option<Vec<u8>>], stream: bool, start: usiz
     Ok(())
 }
 
+/// Archives with more than 65535 entries (ZIP64 end records that MUST be found): faults at every I/O
+/// call index of the opening phase (the first `kmax` calls) of `ZipArchive::new` and of
+/// `ZipWriter::new_append` (+ one appended entry + finish). A full sweep over the ~10^6 later calls of
+/// such an archive is not feasible; they repeat the per-entry pattern covered by the small scenarios.
+fn sweep_big_open(n_entries: u32, kmax: usize, append: bool) -> Result<(), String> {
+    use std::io::Write;
+    let bytes = {
+        let mut c = Cursor::new(Vec::new());
+        let mut w = std::mem::ManuallyDrop::new(ZipWriter::new(&mut c));
+        let o = zip::write::FileOptions::default().compression_method(zip::CompressionMethod::Stored).last_modified_time(zip::DateTime::default());
+        for i in 0..n_entries {
+            w.start_file(format!("b{i}"), o).map_err(|e| format!("harness: {e}"))?;
+            if i % 8191 == 1 {
+                w.write_all(b"x").map_err(|e| format!("harness: {e}"))?;
+            }
+        }
+        w.finish().map_err(|e| format!("harness: {e}"))?;
+        c.into_inner()
+    };
+    for k in 0..kmax {
+        for sticky in [false, true] {
+            FAULT_RUNS.fetch_add(1, Ordering::Relaxed);
+            let st = FaultState::new(k, sticky, false);
+            if !append {
+                let r = catch(|| zip::ZipArchive::new(FaultIo::new(Cursor::new(&bytes[..]), st.clone()))).map_err(|p| format!("PANIC in ZipArchive::new of a {n_entries}-entry archive with a fault at I/O call {k} (sticky={sticky}): {p}"))?;
+                if let Ok(mut za) = r {
+                    if za.len() != n_entries as usize {
+                        return Err(format!("fault at I/O call {k} of ZipArchive::new (sticky={sticky}) was reported by no call, yet the archive is opened with {} entries instead of {n_entries}", za.len()));
+                    }
+                    for i in [0u32, n_entries - 1] {
+                        if let Ok(f) = za.by_index_raw(i as usize) {
+                            if f.name() != format!("b{i}") {
+                                return Err(format!("fault at I/O call {k} of ZipArchive::new (sticky={sticky}): entry {i} is {:?} instead of \"b{i}\"", f.name()));
+                            }
+                        }
+                    }
+                }
+            } else {
+                let sink = FaultIo::new(crate::sio::BoundedSink::new(bytes.clone(), 1 << 20), st.clone());
+                let r = catch(|| ZipWriter::new_append(sink)).map_err(|p| format!("PANIC in new_append on a {n_entries}-entry archive with a fault at I/O call {k} (sticky={sticky}): {p}"))?;
+                let Ok(w) = r else { continue };
+                let mut w = std::mem::ManuallyDrop::new(w);
+                let o = zip::write::FileOptions::default().compression_method(zip::CompressionMethod::Stored).last_modified_time(zip::DateTime::default());
+                let res = catch(|| -> Result<Vec<u8>, String> {
+                    w.start_file("appended", o).map_err(|e| e.to_string())?;
+                    w.write_all(b"appended").map_err(|e| e.to_string())?;
+                    Ok(w.finish().map_err(|e| e.to_string())?.inner.data)
+                })
+                .map_err(|p| format!("PANIC while appending to a {n_entries}-entry archive after a fault at I/O call {k} of new_append (sticky={sticky}): {p}"))?;
+                if let Ok(out) = res {
+                    let za = zip::ZipArchive::new(Cursor::new(&out[..])).map_err(|e| format!("fault at I/O call {k} of new_append (sticky={sticky}) was reported by no call, yet the appended archive does not open: {e}"))?;
+                    if za.len() != n_entries as usize + 1 {
+                        return Err(format!("fault at I/O call {k} of new_append (sticky={sticky}) was reported by no call, yet the appended archive has {} entries instead of {}", za.len(), n_entries + 1));
+                    }
+                }
+            }
+        }
+    }
+    Ok(())
+}
+
 pub fn run(ctx: &mut Ctx) {
-    ctx.rule("each scenario is first run failure-free under a counting stream (n I/O calls), then re-run with a hard error injected at EVERY call index k<n, once as a one-shot and once as a sticky failure; after the first error the scenario keeps issuing its remaining calls, then finish(), a second finish() and drop. readers: open + read every entry (seekable; streaming fully consumed) of the seed archives (plain, ZIP64, ZipCrypto, AES) and generated archives. writers: generated programs over all entry kinds, methods, extra data, aligned, ZipCrypto, optional append base and raw copies, completed by finish or drop. Oracle: no panic/abort anywhere; if no call returned an error the logical result (entries, content, comment as seen by the crate reader and the independent parser) equals the failure-free result. Non-trivial = the failure-free run performs >=1 I/O call. evaluations counts scenarios; coverage.fault_runs counts injected-fault executions.");
+    ctx.rule("each scenario is first run failure-free under a counting stream (n I/O calls), then re-run with a hard error injected at EVERY call index k<n, once as a one-shot and once as a sticky failure; after the first error the scenario keeps issuing its remaining calls, then finish(), a second finish() and drop. readers: open + read every entry (seekable; streaming fully consumed) of the seed archives (plain, ZIP64, ZipCrypto, AES) and generated archives. writers: generated programs over all entry kinds, methods, extra data, aligned, ZipCrypto, optional append base and raw copies, completed by finish or drop. big_open: archives with > 65535 entries, a fault at every one of the first K I/O calls (quick 48, thorough 200) of ZipArchive::new and of new_append (+1 entry, finish). Oracle: no panic/abort anywhere; if no call returned an error the logical result (entries, content, comment as seen by the crate reader and the independent parser) equals the failure-free result. Non-trivial = the failure-free run performs >=1 I/O call. evaluations counts scenarios; coverage.fault_runs counts injected-fault executions.");
     ctx.assume("streaming entries are read to the end, so the failure lands in a Result-returning call (the documented panic in the streaming ZipFile's drop-time drain is outside the property's wording)");
     ctx.assume("completion by drop swallows errors by design; for drop scenarios only the no-panic clause is checked");
     let seeds = seeds::small_seeds();
@@ -284,6 +345,18 @@ pub fn run(ctx: &mut Ctx) {
             Verdict::from_result(r)
         },
     );
+    #[derive(Clone, Debug, Serialize, Deserialize, Hash)]
+    struct BigOpen {
+        entries: u32,
+        append: bool,
+    }
+    let bigs: Vec<u32> = ctx.q(vec![65537], vec![65535, 65536, 65537, 70000]);
+    let kmax = ctx.q(48usize, 200);
+    ctx.enumerate::<BigOpen>("big_open", bigs.len() as u64 * 2, &|i| BigOpen { entries: bigs[i as usize / 2], append: i % 2 == 1 }, &|b: &BigOpen, info: &mut Info| {
+        info.nontrivial = true;
+        info.label(if b.append { "new_append" } else { "ZipArchive::new" });
+        Verdict::from_result(sweep_big_open(b.entries, kmax, b.append))
+    });
     let nw = ctx.q(60, 2000);
     ctx.explore::<WScenario>(
         "writers",
